@@ -648,7 +648,7 @@ func ruleDecoderReps(c *Ctx, r *Report, prefix string) {
 		// distance of the returned match
 		dist := "-"
 		if mi, ok := p.Resolve(ret.Results[0]).(*ssa.MakeInterface); ok && strings.HasSuffix(mi.X.Type().String(), "lzma.match") {
-			dist = matchDistanceSym(mi.X, s.sym, p)
+			dist = matchDistanceSym(p.Resolve(mi.X), s.sym, p)
 		}
 		key := strings.Join(s.bits, ",")
 		out := repOutcome{rep: s.rep, dist: dist, update: strings.Join(s.upd, "+"), lenC: strings.Join(s.lens, "+")}
@@ -745,7 +745,10 @@ func matchDistanceSym(v ssa.Value, sym map[ssa.Value]string, p *PState) string {
 			if off != 1 {
 				return "?+" + fmt.Sprint(off)
 			}
-			x := p.Resolve(stripConv(b))
+			x := p.Resolve(stripConvNoLook(b))
+			if cv, isCv := x.(*ssa.Convert); isCv {
+				x = p.Resolve(stripConvNoLook(cv))
+			}
 			if ph, isPhi := x.(*ssa.Phi); isPhi {
 				x = p.Resolve(ph)
 			}
